@@ -3,7 +3,10 @@ import hc_streams
 import hc_oracles as O
 
 QUICK = {"pair": 120, "ideal": 50, "live": 40, "blackout": 30, "ratepair": 50, "hostile": 200, "tx": 80, "rate": 500, "twin": 80, "reuse": 60, "ackflood": 12, "chanmix": 60, "tswin": 60, "ideallat": 40}
-THOROUGH_FACTOR = 12
+import os
+# depth of the thorough tier (overridable for a quicker self-validation run of the machinery)
+THOROUGH_FACTOR = int(os.environ.get("VERIF_THOROUGH_FACTOR", "12"))
+EP_THOROUGH_FACTOR = int(os.environ.get("VERIF_EP_THOROUGH_FACTOR", os.environ.get("VERIF_THOROUGH_FACTOR", "10")))
 
 STREAM_FN = {
     "pair": hc_streams.pair_faulty, "ideal": hc_streams.pair_ideal, "live": hc_streams.pair_liveness,
